@@ -103,6 +103,25 @@ func (w *World) doGov(in Intent) {
 		}
 		w.St.Fault("gov_cold_storage_proposal")
 		w.Submit("gov_submit", proposer, in.Net, map[string]string{"op": in.Op}, msg)
+	case "delist":
+		// governance removes one token from the list while transfers of it may be pending
+		infos := w.ReadState().TokenInfos()
+		if len(infos) < 2 {
+			return
+		}
+		var out []*mhub2types.TokenInfo
+		for i, ti := range infos {
+			if i != in.Pick%len(infos) {
+				c := *ti
+				out = append(out, &c)
+			}
+		}
+		msg, err := govtypes.NewMsgSubmitProposal(mhub2types.NewTokenInfosChangeProposal(&mhub2types.TokenInfos{TokenInfos: out}), deposit, proposer.Addr)
+		if err != nil {
+			return
+		}
+		w.St.Fault("gov_token_delisted")
+		w.Submit("gov_submit", proposer, in.Net, map[string]string{"op": in.Op}, msg)
 	case "commission":
 		infos := w.ReadState().TokenInfos()
 		if len(infos) == 0 {
